@@ -53,6 +53,10 @@ pub fn check_transitions(sim: &mut Sim, m: Mon, ex: &mut Exercised) {
             }
             if is_ready_state(to) && !is_ready_state(from) {
                 let j = sim.idx(id);
+                sim.ready_entries[j] = sim.ready_entries[j].saturating_add(1);
+                if sim.ready_entries[j] > 1 {
+                    sim.viol.push(viol("C17", "offered-twice", format!("{} enters a ready-to-run state for the second time ({:?}->{:?})", id, from, to)));
+                }
                 // was_ready is updated after the call: a second offer shows up here
                 if sim.started[j] {
                     sim.viol.push(viol("C17", "offered-after-start", format!("{} {:?}->{:?}", id, from, to)));
